@@ -69,10 +69,14 @@ func trunc(s string) string {
 	return s
 }
 
-// RunKit runs the table; mounting is "bare" or "prefixed".
+// RunKit runs the table; mounting is "bare", "prefixed" or "bare+filters".
 func RunKit(run *ev.Run, mounting string) {
 	rec := &kit.Recorder{}
 	s := kit.NewServer(nil)
+	if mounting == "bare+filters" {
+		// well-behaved filters (their PostRequest returns nil) must not change any outcome
+		s = kit.NewServer(kit.NewFilters([]string{"pass", "ctx", "pass"}, &kit.FilterLog{}))
+	}
 	prefix := ""
 	if mounting == "prefixed" {
 		prefix = "/api/v1"
